@@ -1,6 +1,7 @@
 import Ruint.Model.Modular
 import Ruint.Gen.WordsValue
 import Ruint.Model.ModularLimbs
+import Ruint.Gen.WordsUintMod
 /-! Driver for C10: evaluates the model (`Ruint.Modular.*`) and the spec (ℕ arithmetic: `%`, square-and-multiply
     most-significant-bit first, `Nat.gcd` + extended Euclid on ℤ). -/
 open Ruint Ruint.Modular
@@ -71,7 +72,10 @@ def handle (args : List String) (impl : String) : String × String :=
          toHex (if m = 0 then 0 else (x + y) % m))
     | "mul" =>
         -- limb-level model: addmul into nlimbs(2*bits) limbs, then the full `div` model (2N-by-N shape)
-        let l := ModularL.mulMod bits (u bits x) (u bits y) (u bits m)
+        -- … as GENERATED from src/modular.rs over the generated addmul and algorithms::div (`Props/C10.gen_mul_mod_limbs_eq`)
+        let l := if x < 2 ^ bits ∧ y < 2 ^ bits ∧ m < 2 ^ bits
+          then Ruint.Gen.uint_mul_mod (4 * nlimbs bits + 3) bits (nlimbs bits) (u bits x) (u bits y) (u bits m)
+          else ModularL.mulMod bits (u bits x) (u bits y) (u bits m)
         (if l = some (u bits (mulMod bits x y m)) ∧ !mulModOverflow bits x y then outL l
          else "model-levels-disagree " ++ outL l,
          toHex (if m = 0 then 0 else (x * y) % m))
